@@ -105,6 +105,11 @@ type VC struct {
 	defSymMemo   map[string]map[string]bool
 	qmu          sync.Mutex
 	factSymMemo  map[int]map[string]bool
+	entry        *State
+	entryEnv     map[types.Object]*Term
+	unfoldDepth  int
+	unfolded     map[string]bool
+	mathInts     int
 }
 
 func newVC(prog *Prog, fn *FuncInfo, mode Mode) *VC {
@@ -113,7 +118,7 @@ func newVC(prog *Prog, fn *FuncInfo, mode Mode) *VC {
 		decls: map[string]string{}, dtByName: map[string]*Sort{}, sortMemo: map[string]*Sort{},
 		oblNames: map[string]int{}, assumptions: map[string]bool{}, havocked: map[string]bool{},
 		callees: map[string]bool{}, inlined: map[string]bool{}, specAxioms: map[string]bool{},
-		pendingSpecs: map[*FuncInfo]bool{}, doneSpecs: map[*FuncInfo]bool{}, defs: map[string]*Term{}, rowCopies: map[string]rowCopyDef{}, specCache: map[string][]*Term{}, wrapFns: map[string]bool{}, defSymMemo: map[string]map[string]bool{}, boundMemo: map[string]interval{}, varBounds: map[string]interval{},
+		pendingSpecs: map[*FuncInfo]bool{}, doneSpecs: map[*FuncInfo]bool{}, defs: map[string]*Term{}, rowCopies: map[string]rowCopyDef{}, specCache: map[string][]*Term{}, wrapFns: map[string]bool{}, unfolded: map[string]bool{}, defSymMemo: map[string]map[string]bool{}, boundMemo: map[string]interval{}, varBounds: map[string]interval{},
 	}
 }
 
@@ -616,6 +621,17 @@ func (c *VC) binop(op token.Token, a, b *Term, t types.Type) *Term {
 		panic("binop bv " + op.String())
 	}
 	// int mode
+	if c.mathInts > 0 && signed && w == 64 {
+		// spec functions and loop invariants are over mathematical integers (no wrap-around)
+		switch op {
+		case token.ADD:
+			return mk("+", sortInt, a, b)
+		case token.SUB:
+			return mk("-", sortInt, a, b)
+		case token.MUL:
+			return mk("*", sortInt, a, b)
+		}
+	}
 	switch op {
 	case token.ADD:
 		return c.wrap(mk("+", sortInt, a, b), w, signed)
